@@ -68,6 +68,7 @@ fn main() {
 		"panic-matrix" => panicdrv::run_matrix(&args[2], &args[3]),
 		"panic-parsers" => panicdrv::run_parsers(&args[2], &args[3]),
 		"secrets" => secretdrv::run(&args[2], &args[3]),
+		"cli-secrets" => secretdrv::run_cli(&args[2], &args[3], &args[4], &args[5]),
 		"sessions" => sessiondrv::run_sessions(&args[2], &args[3]),
 		"api" => apidrv::run(&args[2], &args[3]),
 		"dn-cases" => dndrv::run_cases(&args[2], &args[3]),
